@@ -8,7 +8,11 @@ What the Coq model of concurrent requests (C04/Model.v: task_step, parameter `ga
   * check_loops_foreign_awaits -- in check_loops, the number of suspension points other than `await check_loops_rec(...)`
     (the function awaiting its own recursion never yields to the event loop), and of calls on expression / port objects that
     are awaited.
-Both are 0 in the code the theorems are about; C04/GenOk.v proves `= 0` against the regenerated file on every run.
+  * check_loops_conditions -- the number of `if` statements around the check_loops call in attr_set_expression (the call must
+    be reached by every assignment of a non-empty text, whoever makes it: a PATCH, load_from_data at start-up or when a
+    port comes back); together with "exactly one `self._expression = <name>` in the function" this says that no expression is
+    stored unchecked.
+All are 0 in the code the theorems are about; C04/GenOk.v proves `= 0` against the regenerated file on every run.
 Fail closed: any shape not listed here raises -> "untranslatable".
 """
 import ast
@@ -141,17 +145,19 @@ def read():
     if len(stores) != 1:
         raise Untranslatable('expected exactly one `self._expression = <name>` in attr_set_expression, found %d' % len(stores))
     between = _between(fn)
-    return _suspensions(between), _foreign_awaits(exprs), [type(st).__name__ for st in between]
+    conditions = sum(1 for block, i in _path_to_check(fn.body) if isinstance(block[i], ast.If))
+    return _suspensions(between), _foreign_awaits(exprs), conditions, [type(st).__name__ for st in between]
 
 
 def translate(ctx=None):
-    gap, foreign, shapes = read()
+    gap, foreign, conditions, shapes = read()
     text = (
         '(* generated by harness/translate/exprstore.py from %s and %s -- do not edit *)\n'
         '(* statements that can run between `await check_loops(...)` and `self._expression = expression`: %s *)\n'
         'Definition awaits_between_check_and_store : nat := %d.\n'
-        'Definition check_loops_foreign_awaits : nat := %d.\n' % (PORTS, EXPRS, ', '.join(shapes) or 'none', gap, foreign)
+        'Definition check_loops_foreign_awaits : nat := %d.\n'
+        'Definition check_loops_conditions : nat := %d.\n' % (PORTS, EXPRS, ', '.join(shapes) or 'none', gap, foreign, conditions)
     )
     coq.write_gen('C04Gen.v', text)
-    return {'status': 'ok', 'detail': 'awaits between check and store: %d; foreign awaits in check_loops: %d; statements: %s'
-            % (gap, foreign, shapes)}
+    return {'status': 'ok', 'detail': 'awaits between check and store: %d; foreign awaits in check_loops: %d; conditions '
+            'around the check_loops call: %d; statements: %s' % (gap, foreign, conditions, shapes)}
